@@ -269,7 +269,7 @@ structure In where
 deriving FromJson, ToJson
 deriving instance FromJson, ToJson for Outcome
 def In.plan (i : In) : Plan :=
-  { input := match i.input with | "readError" => .readError | "garbage" => .garbage | "noTargets" => .noTargets | _ => .none,
+  { input := match i.input with | "readError" => .readError | "garbage" => .garbage | "partial" => .garbage | "noTargets" => .noTargets | _ => .none,
     arts := i.arts.map Persist.ArtJ.toArt, procs := i.procs,
     fs0 := ⟨i.fs0.map (fun e => { e with path := Persist.norm e.path }), i.dirs0.map Persist.norm⟩,
     fsFault := i.fsIdx.map fun k => (k, match i.fsOp with
